@@ -500,7 +500,7 @@ def rf10e(run):
             sym = LS.Sym()
             lv = [x for x in F.walk(comp) if x['k'] in ('DeclRefExpr', 'MemberExpr') and F.src(x) == key][0]
             t = tu.type(lv['t'])
-            if t.kind == 'pointer':
+            if t.kind == 'ptr':
                 sym.scale[key] = 8 if 'uint64_t' in t.s or 'int64_t' in t.s else None
                 if sym.scale[key] is None:
                     raise F.AnalysisBroken('%s: %s has pointer type %s' % (fn, key, t.s))
